@@ -35,10 +35,17 @@ func genC01(t *rapid.T) C01Case {
 	c := C01Case{Mode: Mode(rapid.IntRange(0, int(NumModes)-1).Draw(t, "mode")), Layer: rapid.SampledFrom([]string{"lib", "raw"}).Draw(t, "layer")}
 	c.Clients = rapid.IntRange(1, 4).Draw(t, "clients")
 	c.InFlight = rapid.IntRange(1, 32).Draw(t, "inflight")
+	if rapid.IntRange(0, 14).Draw(t, "burst") == 14 {
+		c.InFlight = rapid.SampledFrom([]int{120, 300}).Draw(t, "burstsize") // more answers outstanding than any internal queue holds
+	}
 	c.Rounds = rapid.IntRange(1, 3).Draw(t, "rounds")
 	n := rapid.IntRange(1, 6).Draw(t, "nsizes")
 	for i := 0; i < n; i++ {
-		c.Sizes = append(c.Sizes, rapid.SampledFrom([]int{0, 0, 10, 100, 5000, 70000, 150000}).Draw(t, "size"))
+		sz := rapid.SampledFrom([]int{0, 0, 10, 100, 5000, 70000, 150000}).Draw(t, "size")
+		if c.InFlight > 32 && sz > 5000 {
+			sz = 5000
+		}
+		c.Sizes = append(c.Sizes, sz)
 	}
 	n = rapid.IntRange(1, 5).Draw(t, "nlat")
 	for i := 0; i < n; i++ {
